@@ -5,7 +5,8 @@
 (* Files 1..K; file k stores the feature named k (so the set of features a *)
 (* dataset offers shows which files were reached).  rid[k] is the run      *)
 (* identifier: "a", "ax" ("a" extended: "a" is a proper prefix of it),     *)
-(* "b" (unrelated).  edge[u][v] is "none", or a basin definition in file u *)
+(* "b" (unrelated), "x" / "i" (a suffix / an inner part of "ax": related   *)
+(* as strings but not prefixes).  edge[u][v] is "none", or a basin definition in file u *)
 (* pointing to file v: "file" / "filemapped" / "remote" / "dangling"       *)
 (* (file-type definition whose target does not exist).                     *)
 (*                                                                         *)
